@@ -308,6 +308,12 @@ class PythonParserGenerator(IndentPrintMixin, NodeWalker):
         elif whitespace is not None:
             whitespace = regexpp(whitespace)
 
+        # NOTE: no comments pattern is None, not a pattern for the text 'None'
+        comments = grammar.config.comments
+        comments = regexpp(comments) if comments else None
+        eol_comments = grammar.config.eol_comments
+        eol_comments = regexpp(eol_comments) if eol_comments else None
+
         name = grammar.directives.get('grammar', grammar.name)
         self.print(f'''
                 config = ParserConfig.new(
@@ -318,8 +324,8 @@ class PythonParserGenerator(IndentPrintMixin, NodeWalker):
                     ignorecase={grammar.config.ignorecase or False},
                     namechars={grammar.config.namechars or ""!r},
                     parseinfo={grammar.config.parseinfo},
-                    comments={regexpp(grammar.config.comments)},
-                    eol_comments={regexpp(grammar.config.eol_comments)},
+                    comments={comments},
+                    eol_comments={eol_comments},
                     keywords=KEYWORDS,
                     start={start!r},
                 )
